@@ -95,6 +95,57 @@ def run_batch(args):
     return out
 
 
+def valgrind_batch(args):
+    """jobs under valgrind memcheck (uninitialised values, invalid reads / writes that ASan's redzones miss).
+    Only errors with a frame inside the engine library count; the interpreter's own noise is ignored."""
+    libpath, jobs, tag = args
+    d = util.subdir("vg_%s" % tag)
+    jf, pf, lf = os.path.join(d, "jobs.json"), os.path.join(d, "progress.txt"), os.path.join(d, "vg.log")
+    with open(jf, "w") as f:
+        json.dump(jobs, f)
+    env = dict(os.environ, PYTHONPATH=util.VERIF, PYTHONWARNINGS="ignore", PYTHONMALLOC="malloc")
+    with open(os.path.join(d, "out.txt"), "w") as fo:
+        proc = subprocess.Popen(["timeout", "-k", "5", "1500", "valgrind", "--error-exitcode=0", "--log-file=" + lf, "--num-callers=14",
+                                 "--track-origins=yes", "--error-limit=no", "/venv/bin/python", "-m", "harness.san_driver", libpath, jf, pf, "0"],
+                                env=env, stdout=fo, stderr=fo, stdin=subprocess.DEVNULL, cwd=util.VERIF, start_new_session=True)
+        proc.wait()
+        try:
+            os.killpg(proc.pid, 9)
+        except ProcessLookupError:
+            pass
+    prog = open(pf).read() if os.path.exists(pf) else ""
+    done = "DONE" in prog
+    log = open(lf, errors="replace").read() if os.path.exists(lf) else ""
+    blocks = re.split(r"\n==\d+== \n", log)
+    hits = []
+    for b in blocks[1:]:
+        if re.search(r"(engine_vg\.so|\.hpp:\d+|engine\.cpp:\d+)", b) and re.search(r"==\d+==\s+(at|by) 0x", b):
+            first = re.sub(r"==\d+== ", "", b.strip().split("\n")[0])
+            if first.startswith(("HEAP SUMMARY", "LEAK SUMMARY", "ERROR SUMMARY")) or "lost in loss record" in b:
+                continue
+            hits.append(re.sub(r"==\d+== ", "", b)[:1500])
+    return {"done": done, "hits": hits, "njobs": len(jobs), "progress_tail": prog[-200:]}
+
+
+def valgrind_stage(rep, jobs, label):
+    lib = build.build_engine("vg")
+    clean = [{k: v for k, v in j.items() if not k.startswith("_")} for j in jobs]
+    nb = min(util.NCPU, max(1, len(jobs) // 8))
+    ctx = mp.get_context("fork")
+    with ctx.Pool(nb) as pool:
+        res = pool.map(valgrind_batch, [(lib, clean[b::nb], "%s_%d" % (label, b)) for b in range(nb)])
+    for b, r in enumerate(res):
+        if not r["done"]:
+            rep.violation("valgrind/" + label, "vg:run-did-not-finish", {"progress": r["progress_tail"]})
+        for h in r["hits"][:3]:
+            kind = h.strip().split("\n")[0][:60]
+            fn = re.search(r"(?:at|by) 0x[0-9A-F]+: ([\w:~<>]+)[^\n]*(?:engine_vg|\.hpp|engine\.cpp)", h)
+            rep.violation("valgrind/" + label, "vg:%s:%s" % (re.sub(r"\d+", "N", kind), fn.group(1) if fn else "?"), {"report": h})
+    for j in jobs:
+        rep.case([label, "vg", j["id"], j.get("_desc")])
+    rep.traces += len(jobs)
+
+
 def model_jobs(rng, n):
     jobs = []
     for k in range(n):
@@ -166,8 +217,9 @@ def run(tier, selftest=False, only=None):
                 "(-fno-sanitize-recover); any report is a violation; the Euler jobs are repeated with _GLIBCXX_ASSERTIONS; "
                 "distinct = distinct jobs")
     rep.assumptions = [
-        "observer = AddressSanitizer + UndefinedBehaviorSanitizer of clang 14 (+ libstdc++ assertions for the deterministic engine); "
-        "what they do not instrument is not seen",
+        "observers = AddressSanitizer + UndefinedBehaviorSanitizer of clang 14 (+ libstdc++ assertions for the deterministic engine) and "
+        "valgrind memcheck (uninitialised values; only errors with a frame inside the engine library are counted); what they do not "
+        "instrument is not seen",
         "two-object histories are excluded: dereferencing a simulation deleted through another engine object is finding F6 (C10)",
         "stochastic engines are not run with _GLIBCXX_ASSERTIONS beyond one probe job: std::poisson_distribution is constructed with "
         "mean 0 for every empty cell / channel (known finding F16)",
@@ -191,7 +243,9 @@ def run(tier, selftest=False, only=None):
     dispatch(rep, "sanassert", ej, "euler-with-library-assertions")
     probe = [j for j in mj if j["engine"] == "tauleap"][:1]
     dispatch(rep, "sanassert", probe, "stochastic-probe-with-library-assertions")
-    rep.extra["jobs"] = {"histories": len(hj), "models": len(mj), "euler_assert": len(ej)}
+    vj = mj[:96] + hj[:32] if tier == "quick" else mj[:1000] + hj[:400]
+    valgrind_stage(rep, vj, "memcheck")
+    rep.extra["jobs"] = {"histories": len(hj), "models": len(mj), "euler_assert": len(ej), "valgrind_memcheck": len(vj)}
     rep.sample(hj[5]["_desc"])
     rep.sample(mj[1]["_desc"])
     if selftest:
